@@ -401,6 +401,15 @@ func c06Unions(c *Ctx, g *gen.G) {
 			cases = append(cases, uv{"Responses{0,code,default}", rs, fmt.Sprintf(`{"0":%s,"%d":%s,"default":%s}`, j0, code, j1, jd)})
 			cases = append(cases, uv{"Responses{0}", spec.Responses{ResponsesProps: spec.ResponsesProps{StatusCodeResponses: map[int]spec.Response{0: *r0}}}, fmt.Sprintf(`{"0":%s}`, j0)})
 		}
+		// a paths object filled in by hand: only keys that are paths are path items; a key of the path map that looks
+		// like an extension is not written beside (or instead of) the extension of that name
+		{
+			pi := spec.PathItem{PathItemProps: spec.PathItemProps{Get: spec.NewOperation("op").RespondsWith(200, spec.NewResponse().WithDescription("d"))}}
+			jpi, _ := json.Marshal(pi)
+			ps := spec.Paths{Paths: map[string]spec.PathItem{"/pets": pi, "x-internal": pi, "pets": pi}}
+			ps.AddExtension("x-internal", "audience-a")
+			cases = append(cases, uv{"Paths{/pets, x-internal, pets}+extension", ps, fmt.Sprintf(`{"x-internal":"audience-a","/pets":%s}`, jpi)})
+		}
 		for _, u := range cases {
 			got, err := json.Marshal(u.v)
 			c.Count("union:"+u.how+u.want, true)
@@ -412,6 +421,15 @@ func c06Unions(c *Ctx, g *gen.G) {
 			}
 			gv, e1 := wire.Parse(got)
 			wv, e2 := wire.Parse([]byte(u.want))
+			if e1 == nil && gv.Kind == wire.Obj {
+				seen := map[string]bool{}
+				for _, m := range gv.O {
+					if seen[m.K] {
+						c.Fail(Failure{Kind: "oracle", Sig: "C06:duplicate-member", What: fmt.Sprintf("a %s encodes with the member %q twice: %s", u.how, m.K, clip(string(got))), Case: cs, Impl: clip(string(got))})
+					}
+					seen[m.K] = true
+				}
+			}
 			if e1 != nil || e2 != nil || gv.Canon() != wv.Canon() {
 				c.Fail(Failure{Kind: "oracle", Sig: "C06:parses-to-something-else", What: fmt.Sprintf("a %s encodes as %s, which is not what the value holds (%s)", u.how, clip(string(got)), clip(u.want)), Case: cs, Impl: clip(string(got))})
 			}
@@ -523,7 +541,9 @@ func caseFoldSuspect(v wire.V, exact, lower map[string]bool) bool {
 
 var mutationScalars = []string{`null`, `true`, `false`, `0`, `-1`, `1.5`, `1e400`, `99999999999999999999`, `""`, `"x"`, `[]`, `{}`, `[null]`, `[1,"a"]`, `{"a":null}`, `[[]]`, `"#/definitions/a"`, `"%zz"`, `"http://[::1"`, `" "`, `{"$ref":"#/x"}`, `{"$ref":1}`, `[{}]`,
 	// the root reference in its two spellings (it prints as the empty string), alone and beside other members
-	`{"$ref":"#"}`, `{"$ref":""}`, `"#"`, `{"$ref":"#","description":"d"}`, `{"$ref":"//"}`}
+	`{"$ref":"#"}`, `{"$ref":""}`, `"#"`, `{"$ref":"#","description":"d"}`, `{"$ref":"//"}`,
+	// objects made of empty containers only (empty by length, not equal to the zero value)
+	`{"properties":{}}`, `{"required":[]}`, `{"enum":[],"allOf":[]}`, `{"definitions":{}}`, `{"additionalProperties":{"properties":{}}}`, `{"additionalItems":{"required":[]}}`}
 
 // mutate returns a structurally mutated copy of v.
 func mutate(c *Ctx, v wire.V, budget *int) wire.V {
